@@ -84,6 +84,12 @@ def events(tier, depth_left, engine="pickle"):
     ev.append(["sample_seeded", [[2, 10]]])
     # the engine given per call to a Sampler whose own default is the other
     ev.append(["sample_pc", [[1, 20]]])
+    # a generator that runs out before the run is complete: the run fails,
+    # nothing is appended
+    ev.append(["sample_exhaust", 3, 2])
+    # nothing is sampled - every argument is a constant - n repeats all the
+    # same
+    ev.append(["sample_const", 3])
     ev.append(["sample_obj", 1])
     ev.append(["sample_obj", 2])
     # the numpy random-choice path: one long-lived Sampler whose choices are
@@ -228,6 +234,34 @@ class World:
             self.s = self.new_sampler()
             before = seed_rows
             new_rows = [self.expect_row(x[0], x[1]) for x in seq]
+        elif kind == "sample_exhaust":
+            _, n, avail = ev
+            it_a = iter([CH["a"][j % 2] for j in range(avail)])
+            r = xyz.Runner(self.f, var_names="out", constants={"k": 0})
+            se = xyz.Sampler(r, data_name=self.path, engine=self.cfg["engine"],
+                             default_combos={"b": list(CH["b"]),
+                                             "a": lambda: next(it_a)})
+            self.last = prev_last
+            try:
+                se.sample_combos(n, verbosity=0)
+            except Exception:
+                return []   # (refused: the table is judged by observe)
+            self.last = se
+            return [("short-run", "the generator of 'a' ran out after %d of "
+                     "%d draws and the run returned normally" % (avail, n))]
+        elif kind == "sample_const":
+            n = ev[1]
+            r = xyz.Runner(self.f, var_names="out",
+                           constants={"k": 0, "a": 2, "b": 20})
+            sc_ = xyz.Sampler(r, data_name=self.path,
+                              engine=self.cfg["engine"])
+            try:
+                last = sc_.sample_combos(n, verbosity=0)
+            except Exception as e:
+                return [("raised:" + type(e).__name__, "sample_combos with "
+                         "constants only raised %r" % e)]
+            self.s = self.new_sampler()
+            new_rows = [self.expect_row(2, 20) for _ in range(n)]
         elif kind == "sample_pc":
             seq = ev[1]
             other = {"pickle": "csv", "csv": "pickle"}[self.cfg["engine"]]
